@@ -397,7 +397,16 @@ func c02(c *ctx) {
 					if g, ok := (*op).(*ssa.Global); ok && g.Object() == sigCache {
 						n++
 						enc := fnName(enclosing(f))
-						if reason, ok := allowed[enc]; ok {
+						// code in a helper that did not exist on the reference tree belongs to the helper's callers
+						allIn, reason := true, ""
+						for _, an := range c.p.attribNames(f) {
+							if why, ok := allowed[an]; ok {
+								reason = why
+							} else {
+								allIn = false
+							}
+						}
+						if allIn && reason != "" {
 							r.OK("R7/SignatureCache-access/"+enc, c.p.Pos(in.Pos()), reason)
 						} else {
 							r.Bad("R7/SignatureCache-access/"+enc, c.p.Pos(in.Pos()), "the process-wide signature cache is accessed in "+enc+", outside the single-key helpers {CheckCache, BatchVerifier.verifyAll}: a cached verdict there is not tied to the signer set that is being credited")
